@@ -520,8 +520,8 @@ def plan(tier, seed):
     specs = []
     groups = [ALL_OPS[i::6] for i in range(6)]
     for i, g in enumerate(groups):
-        specs.append({"kind": "sweep", "sub": i, "ops": g, "configs_per_op": 5 if q else 36, "schedulers": ["synchronous", 1, 2, 16], "budget_s": 240 if q else 2400})
-    specs.append({"kind": "pixels", "sub": 0, "ops": [o for o in ALL_OPS], "reps": 1 if q else 6})
+        specs.append({"kind": "sweep", "sub": i, "ops": g, "configs_per_op": 5 if q else 60, "schedulers": ["synchronous", 1, 2, 16], "budget_s": 240 if q else 600})
+    specs.append({"kind": "pixels", "sub": 0, "ops": [o for o in ALL_OPS], "reps": 1 if q else 12})
     for layer in ("omp", "workqueue"):
         specs.append({"kind": "threads", "env": {"NUMBA_THREADING_LAYER": layer}, "threads": [2, 3, 8, 16] if q else list(range(2, 17)), "chunksizes": [0, 1, 3] if not q else [0, 1], "reps": 2 if q else 10})
     race = ["lroo", "rolling_sum", "ws2dgu", "do_mean"] if q else LAZY_KERNELS
